@@ -18,6 +18,7 @@ T: seeded random inputs (k up to 31 / 64, sequences up to hundreds of bases, rea
 """
 import collections
 import json
+import os
 import vlib
 
 NEED_CLASSES = (
@@ -80,8 +81,31 @@ def describe(ev, why):
                (" ; PANIC " + ev["panmsg"]) if ev["pan"] else ""))
 
 
-def validate_trace(ctx, trace, timeout, heap):
-    events, rejects = ctx.trace_validate("KmerTrace", "KmerTrace.cfg", trace, timeout=timeout)
+HEAP_MODEL = "6g"    # bounded heaps keep several concurrent checks out of the OOM killer
+HEAP_TRACE = "8g"
+
+
+def trace_validate(ctx, trace_path, timeout):
+    """ctx.trace_validate with a bounded heap"""
+    events = [json.loads(x) for x in open(trace_path) if x.strip()]
+    if not events:
+        raise vlib.Inconclusive("empty trace %s" % trace_path)
+    rej = trace_path + ".rejects"
+    if os.path.exists(rej):
+        os.remove(rej)
+    res = ctx.tlc("KmerTrace", "KmerTrace.cfg", env={"VERIF_TRACE": trace_path, "VERIF_REJECTS": rej},
+                  timeout=timeout, heap=HEAP_TRACE)
+    if not res.clean:
+        raise vlib.Inconclusive("trace specification KmerTrace did not run cleanly:\n%s" % res.tail(60))
+    if res.distinct != 2 * len(events):
+        raise vlib.Inconclusive("KmerTrace judged %d states for %d events" % (res.distinct, len(events)))
+    rejects = vlib.read_cases(rej)
+    ctx.traces_validated += len(events)
+    return events, rejects
+
+
+def validate_trace(ctx, trace, timeout):
+    events, rejects = trace_validate(ctx, trace, timeout)
     for r in rejects:
         ev = events[r["l"] - 1]
         if r["why"].startswith("harness_"):
@@ -102,7 +126,7 @@ def main(ctx):
             vlib.write_ndjson(one, [case])
             trace = ctx.path("trace.ndjson")
             ctx.harness(["record", "C19", "--out", trace, "--n", 8, "--opt", "replay=" + one])
-            validate_trace(ctx, trace, 900, None)
+            validate_trace(ctx, trace, 900)
         else:
             cases = ctx.path("cases.ndjson")
             vlib.write_ndjson(cases, [case])
@@ -115,9 +139,9 @@ def main(ctx):
     tier = "thorough" if thorough else "quick"
     # M ---------------------------------------------------------------------------------------
     kcases = ctx.path("cases_kmer.ndjson")
-    r1 = ctx.tlc_model("KmerCheck", "KmerCheck_%s.cfg" % tier, env={"VERIF_CASES": kcases}, timeout=1500)
+    r1 = ctx.tlc_model("KmerCheck", "KmerCheck_%s.cfg" % tier, env={"VERIF_CASES": kcases}, timeout=1500, heap=HEAP_MODEL)
     gcases = ctx.path("cases_graph.ndjson")
-    r2 = ctx.tlc_model("DeBruijnCheck", "DeBruijnCheck_%s.cfg" % tier, env={"VERIF_CASES": gcases}, timeout=1500)
+    r2 = ctx.tlc_model("DeBruijnCheck", "DeBruijnCheck_%s.cfg" % tier, env={"VERIF_CASES": gcases}, timeout=1500, heap=HEAP_MODEL)
     try:
         c1 = vlib.read_cases(kcases)
         c2 = vlib.read_cases(gcases)
@@ -149,7 +173,7 @@ def main(ctx):
     n, graphs, maxlen = (3000, 800, 500) if thorough else (150, 64, 200)
     ctx.harness(["record", "C19", "--out", trace, "--n", n, "--opt", "maxlen=%d" % maxlen, "--opt", "graphs=%d" % graphs],
                 timeout=900)
-    events, rejects = validate_trace(ctx, trace, 1500, None)
+    events, rejects = validate_trace(ctx, trace, 1500)
     fam = collections.Counter("%s/%s" % (e["kind"], e["sc"]) for e in events)
     for need in NEED_FAMILIES:
         ctx.expect_vacuity("trace family " + need, fam.get(need, 0))
